@@ -76,8 +76,10 @@ prop("C06", engine="eval", prefixes=["C06."], level="model_checking",
                         ("inherit", dict(_worker="make_inh_trace")),
                         ("dyn", dict(_worker="make_dyn_trace")),
                         ("inherit", dict(_worker="make_inh_trace", recalc=True)),
-                        ("dyn", dict(_worker="make_dyn_trace", recalc=True))],
-     quick=dict(traces=144, nops=30), thorough=dict(traces=3600, nops=45))
+                        ("dyn", dict(_worker="make_dyn_trace", recalc=True)),
+                        # chains through several nested uncached cells
+                        ("value", dict(gen=dict(p_uncached=0.55, p_catch=0.0)))],
+     quick=dict(traces=168, nops=30), thorough=dict(traces=4200, nops=45))
 prop("C08", engine="eval", prefixes=["C08."], level="model_checking",
      mc=("MxEval", "MC_MxEval_quick.cfg", "MC_MxEval_thorough.cfg"),
      jobs=lambda tier: [("eval", dict()), ("fail", dict(gen=dict(p_raise=0.15, p_catch=0.15))),
